@@ -739,6 +739,12 @@ func (repo *GoGitRepo) UpdateRef(ref string, hash Hash) error {
 
 // RemoveRef will remove a Git reference
 func (repo *GoGitRepo) RemoveRef(ref string) error {
+	// go-git rewrites .git/packed-refs to remove a packed reference: two concurrent removals
+	// (RepoCache.RemoveAll removes bugs and identities at the same time) can each start from the
+	// same content, and the second rewrite brings back what the first one removed.
+	repo.rMutex.Lock()
+	defer repo.rMutex.Unlock()
+
 	return repo.r.Storer.RemoveReference(plumbing.ReferenceName(ref))
 }
 
